@@ -1,8 +1,11 @@
 """C18 — Audio paths are stored relative to the audio directory and relocate on load."""
 import copy
+import itertools
 import json
 import os
 import random
+import shutil
+import unicodedata
 from pathlib import Path, PurePosixPath
 
 from ..core import Op, canon_exc
@@ -15,29 +18,43 @@ _THEOREM_NAMES = ["C18_relative_iff", "C18_relative_join", "C18_join_relative", 
                   "C18_stored_relative", "C18_every_recording_stored", "C18_outside_fails",
                   "C18_outside_fails_needs_coherence", "C18_outside_fails_wf", "C18_outside_fails_recordingSet",
                   "C18_outside_fails_dataset", "C18_inside_succeeds", "parse_parts_ok", "parse_root_ok",
-                  "C18_parse_render"]
+                  "C18_parse_render",
+                  # second review
+                  "C18_parse_wf", "C18_parse_render_parse", "C18_relative_join_wf", "C18_render_injective",
+                  "C18_string_level", "C18_relocate_to_none", "C18_relocate_from_none", "C18_recordings_of_mapPath",
+                  "C18_loaded_recordings", "C18_relocate_collection", "C18_passthrough_collection", "C18_adapter_table"]
 THEOREMS = [_T + n for n in _THEOREM_NAMES]
 LEVEL_TEXT = ("Lean theorems over a model of POSIX pure paths (parse, render, relative_to, join as pathlib computes "
-              "them) and of the AOEF recording adapter inside the C01 model: relative_to succeeds exactly for paths "
-              "inside the directory and is inverted by join; saving under A and loading under B maps A/x to B/x; "
-              "every recording of every collection constructor is stored relative to the directory and saving fails as "
-              "a whole when one lies outside; without a directory paths pass through. The path model is compared with "
-              "pathlib on every generated path, and stored / relocated paths of all eight collection types with the "
-              "real save / load (directory given as str and as Path, with and without trailing slash).")
+              "them; every string parses to a well-formed path and parse . render is the identity on those) and of the "
+              "AOEF recording adapter inside the C01 model: relative_to succeeds exactly for paths inside the directory "
+              "and is inverted by join; saving under A and loading under B maps A/x to B/x for every recording "
+              "reachable from the collection by whatever route (clip, sound event, sequence, prediction, task, match), "
+              "for all eight collection constructors; every recording is stored relative to the directory and saving "
+              "fails as a whole when one lies outside; without a directory (on either side) paths pass through. The "
+              "path model is compared with pathlib on every generated path, and stored / relocated paths of all eight "
+              "collection types with the real save / load (directory as str and as Path independently on both sides, "
+              "messy spellings, several saves / loads and save-load chains in one process).")
 LEVEL_NOTE = ("Trusted: Lean kernel; pathlib itself (its parse is compared with the model's on every generated path); "
-              "POSIX flavour only (Windows paths are out of scope). That `save` creates a missing parent directory of "
-              "the target file before converting is observed and not compared.")
-TECHNIQUE = ("Lean 4 proof (path algebra and recording-adapter theorems over the AOEF model); differential "
-             "correspondence with pathlib and with the real save/load of all eight collection types")
+              "POSIX flavour only (Windows paths are out of scope). The file system is not modelled: that a failing save "
+              "leaves nothing behind (no file at the target, no other file next to it, an existing file untouched) is "
+              "observed on the real code for every failing case. That `save` creates a missing parent directory of the "
+              "target file before converting is observed and not compared.")
+TECHNIQUE = ("Lean 4 proof (path algebra and recording-adapter theorems over the AOEF model); regenerated "
+             "adapter-table obligation (introspection of ADAPTERS: one recording adapter per collection adapter, and it "
+             "got the directory); differential correspondence with pathlib and with the real save/load of all eight "
+             "collection types")
 RULE = ("distinct (operation, input) cases on which the real code produced paths (or the expected failure): path "
         "strings against pathlib, stored paths and relocated paths of every recording of a collection")
 TRUSTED = ["pathlib.PurePosixPath (compared with the model on every generated path)",
            "harness/aoef.py conversions (shared with C01)"]
 ASSUMPTIONS = ["POSIX path flavour"]
 NOT_COMPARED = ["creation of the target file's parent directory before the conversion fails",
-                "error messages (only: an exception is raised and no file exists at the target path)"]
+                "error messages and error classes (only: an exception is raised and nothing is left behind in the "
+                "target directory)",
+                "the spelling of a loaded path beyond pathlib equality (str(Path(p)) is compared)"]
 
-PARTS = ["a", "b", "sub dir", "ünï", "x.y", ".hidden", "..", "...", " ", "rec.wav", "ñandú 1.WAV", "data", "audio", "a"]
+PARTS = ["a", "b", "sub dir", "ünï", "x.y", ".hidden", "..", "...", " ", "rec.wav", "ñandú 1.WAV", "data", "audio", "a",
+         " lead", "trail ", "tab\there", "estacio\u0301n", "estaci\u00f3n", "..x", "~"]
 
 
 def gen_path(rng, absolute=None, messy=True):
@@ -72,38 +89,169 @@ def _impl_join(inp):
     return _pj(inp["d"] / PurePosixPath(inp["p"]))
 
 
-# ------------------------------------------------------------------ collections
+# ------------------------------------------------------------------ the real save / load, by every public route
+_N = [0]
+
+
+def _fresh_dir():
+    """a fresh, empty directory of this run: whatever a save leaves behind is visible in it"""
+    _N[0] += 1
+    d = os.path.join(leanio.run_dir(), f"c18_{_N[0]}")
+    shutil.rmtree(d, ignore_errors=True)
+    os.makedirs(d)
+    return d
+
+
+def _listing(d):
+    out = []
+    for root, _dirs, files in os.walk(d):
+        for f in files:
+            out.append(os.path.relpath(os.path.join(root, f), d))
+    return sorted(out)
+
+
+def _converters():
+    """`to_aeof` / `to_soundevent` of soundevent.io.aoef when both exist (they are public; a renamed one only
+    means that this route is not taken)"""
+    try:
+        from soundevent.io import aoef as real
+    except Exception:  # noqa: BLE001
+        return None
+    f, g = getattr(real, "to_aeof", None), getattr(real, "to_soundevent", None)
+    return (f, g) if callable(f) and callable(g) else None
+
+
+def _do_save(obj, target, audio_dir, how, api="io", fmt="aoef"):
+    """save `obj` to `target` by one of the public routes"""
+    ad = aoef_impl.adir(audio_dir, how)
+    if api == "aoef":
+        from soundevent.io import aoef as real
+        real.save(obj, target, audio_dir=ad)
+    elif api == "positional":
+        from soundevent import io
+        io.save(obj, Path(target), ad)
+    else:
+        from soundevent import io
+        io.save(obj, target, audio_dir=ad, format=fmt)
+
+
+def _do_load(target, audio_dir, how, api="io", fmt="aoef", ty=None):
+    ad = aoef_impl.adir(audio_dir, how)
+    if api == "aoef":
+        from soundevent.io import aoef as real
+        return real.load(target, audio_dir=ad) if ty is None else real.load(target, audio_dir=ad, type=ty)
+    from soundevent import io
+    if api == "positional":
+        return io.load(Path(target), ad)
+    if ty is not None:
+        return io.load(target, audio_dir=ad, format=fmt, type=ty)
+    return io.load(target, audio_dir=ad, format=fmt)
+
+
+def _rec_paths_of_data(data):
+    return sorted([r["uuid"], r["path"]] for r in data.get("recordings") or [])
+
+
 def _rec_paths_of_doc(path):
-    real = json.load(open(path))["data"]
-    return sorted([r["uuid"], r["path"]] for r in real.get("recordings") or [])
+    return _rec_paths_of_data(json.load(open(path))["data"])
+
+
+SENTINEL = "{\"earlier\": \"content\"}\n"
+
+
+def _stored_of(obj, inp):
+    """save one (already built) object as `inp` says -> the recording paths of the document | the failure"""
+    api, fmt, pre = inp.get("api", "io"), inp.get("format", "aoef"), inp.get("pre")
+    conv = _converters() if api == "convert" else None
+    if conv is not None:
+        # the conversion step of `save` on its own (public `to_aeof`): no file is involved
+        try:
+            doc = conv[0](obj, audio_dir=aoef_impl.adir(inp.get("audio_dir"), inp.get("dir_as", "str")))
+            return {"val": _rec_paths_of_data(json.loads(doc.model_dump_json(exclude_none=True))["data"])}
+        except leanio.InfraError:
+            raise
+        except Exception as e:  # noqa: BLE001
+            return canon_exc(e)
+    if api == "convert":
+        api = "io"
+    d = _fresh_dir()
+    target = os.path.join(d, "doc.json")
+    if pre == "fresh_dir":
+        target = os.path.join(d, "not yet", "there", "doc.json")
+    elif pre == "file":
+        open(target, "w").write(SENTINEL)
+    try:
+        try:
+            _do_save(obj, target, inp.get("audio_dir"), inp.get("dir_as", "str"), api, fmt)
+        except leanio.InfraError:
+            raise
+        except Exception as e:  # noqa: BLE001
+            out = canon_exc(e)
+            left = _listing(d)
+            if pre == "file" and os.path.exists(target) and open(target).read() == SENTINEL:
+                left = [f for f in left if f != "doc.json"]      # an earlier file, untouched
+            out["file_written"] = bool(left)
+            if left:
+                out["left_behind"] = left
+            return out
+        return {"val": _rec_paths_of_doc(target)}
+    finally:
+        shutil.rmtree(d, ignore_errors=True)
 
 
 def _impl_stored(inp):
     """'path' of every entry of data.recordings in the written JSON; on failure: nothing may have been written"""
-    target = aoef_impl.tmp_path("c18")
-    if os.path.exists(target):
-        os.remove(target)
     try:
-        aoef_impl.save_real(inp["collection"], inp.get("audio_dir"), inp.get("dir_as", "str"), path=target)
+        obj = aoef.build(inp["collection"])
+    except leanio.InfraError:
+        raise
     except Exception as e:  # noqa: BLE001
-        out = canon_exc(e)
-        out["file_written"] = os.path.exists(target)
-        aoef_impl.cleanup(target)
-        return out
-    try:
-        return {"val": _rec_paths_of_doc(target)}
-    finally:
-        aoef_impl.cleanup(target)
+        return canon_exc(e)
+    return _stored_of(obj, inp)
 
 
-def _holds_stored(ctx, inp, out):
+def _want_stored(cj, A):
+    """the property, directly (pathlib arithmetic on the input): uuid -> stored path, or None when a recording
+    lies outside `A`"""
+    want = {}
+    for u, p in _all_recordings(cj):
+        q = PurePosixPath(p)
+        if A is not None:
+            try:
+                q = q.relative_to(A)
+            except ValueError:
+                return None
+        want[u] = str(q)
+    return want
+
+
+def _judge_stored(inp, out, where=""):
     if out.get("file_written"):
-        return "saving failed but a file was written at the target path"
+        return (f"{where}saving failed but something was written in the target directory: "
+                f"{out.get('left_behind')}")
+    want = _want_stored(inp["collection"], inp.get("audio_dir"))
+    if want is None:
+        if "val" in out:
+            return (f"{where}a recording lies outside the audio directory {inp.get('audio_dir')!r} but saving did not "
+                    f"fail (stored: {out['val'][:3]})")
+        return None
+    if "val" in out:
+        got = {u: p for u, p in out["val"]}
+        for u, p in want.items():
+            if got.get(u) != p:
+                return (f"{where}recording {u}: stored path {got.get(u)!r}, expected {p!r} "
+                        f"(audio directory {inp.get('audio_dir')!r})")
     return None
 
 
+def _holds_stored(ctx, inp, out):
+    return _judge_stored(inp, out)
+
+
 def _cmp_sorted_val(inp, io, mo):
-    a = {k: v for k, v in io.items() if k not in ("trace", "file_written")}
+    a = {k: v for k, v in io.items() if k not in ("trace", "file_written", "left_behind")}
+    if "raise" in a and "raise" in mo:
+        return None         # the property pins *that* saving fails, not the class of the error
     if "val" in mo:
         mo = {"val": sorted(mo["val"])}
     return None if a == mo else "implementation and model disagree"
@@ -126,50 +274,96 @@ def _all_recordings(cj):
     return sorted([u, p] for u, p in out.items())
 
 
+def _load_type(inp):
+    return inp["collection"]["type"] if inp.get("type") else None
+
+
 def _impl_relocate(inp):
     """save under A, load under B (fresh file, fresh call): Recording.path of every reachable recording"""
-    from soundevent import io
-    target = aoef_impl.tmp_path("c18r")
+    api, fmt = inp.get("api", "io"), inp.get("format", "aoef")
+    how_s = inp.get("dir_as", "str")
+    how_l = inp.get("load_as", how_s)
+    d = None
     try:
-        aoef_impl.save_real(inp["collection"], inp.get("save_dir"), inp.get("dir_as", "str"), path=target)
-        obj = io.load(target, audio_dir=aoef_impl.adir(inp.get("load_dir"), inp.get("dir_as", "str")))
-        return {"val": _all_recordings(aoef.dump(obj))}
+        obj = aoef.build(inp["collection"])
+        conv = _converters() if api == "convert" else None
+        if conv is not None:
+            doc = conv[0](obj, audio_dir=aoef_impl.adir(inp.get("save_dir"), how_s))
+            doc = type(doc).model_validate_json(doc.model_dump_json(exclude_none=True))
+            back = conv[1](doc, audio_dir=aoef_impl.adir(inp.get("load_dir"), how_l))
+            return {"val": _all_recordings(aoef.dump(back))}
+        if api == "convert":
+            api = "io"
+        d = _fresh_dir()
+        target = os.path.join(d, "doc.json")
+        _do_save(obj, target, inp.get("save_dir"), how_s, api, fmt)
+        back = _do_load(target, inp.get("load_dir"), how_l, api, fmt, _load_type(inp))
+        return {"val": _all_recordings(aoef.dump(back))}
     except leanio.InfraError:
         raise
     except Exception as e:  # noqa: BLE001
         return canon_exc(e)
     finally:
-        aoef_impl.cleanup(target)
+        if d:
+            shutil.rmtree(d, ignore_errors=True)
+
+
+def _want_relocated(paths, A, B):
+    """pathlib arithmetic: {uuid: path} saved under A and loaded under B, or None when the save must fail"""
+    want = {}
+    for u, p in paths.items():
+        q = PurePosixPath(p)
+        if A is not None:
+            try:
+                q = q.relative_to(A)
+            except ValueError:
+                return None
+        if B is not None:
+            q = PurePosixPath(B) / q
+        want[u] = str(q)
+    return want
+
+
+def _judge_relocated(paths, A, B, out, where=""):
+    want = _want_relocated(paths, A, B)
+    if want is None:
+        if "val" in out:
+            return f"{where}a recording lies outside the audio directory {A!r} but saving did not fail"
+        return None
+    if "val" not in out:
+        return None          # judged by the comparison with the model
+    got = dict(out["val"])
+    for u, p in want.items():
+        if got.get(u) != p:
+            return f"{where}recording {u}: loaded path {got.get(u)!r}, expected {p!r} (saved under {A!r}, loaded under {B!r})"
+    return None
 
 
 def _holds_relocate(ctx, inp, out):
     """the property, directly: A/x -> B/x for every recording (pathlib arithmetic on the input paths)"""
-    if "val" not in out:
-        return None
-    A, B = inp.get("save_dir"), inp.get("load_dir")
-    want = {}
-    for u, p in _all_recordings(inp["collection"]):
-        q = PurePosixPath(p)
-        if A is not None:
-            q = q.relative_to(A)
-        if B is not None:
-            q = PurePosixPath(B) / q
-        want[u] = str(q)
-    got = dict(out["val"])
-    for u, p in want.items():
-        if got.get(u) != p:
-            return f"recording {u}: loaded path {got.get(u)!r}, expected {p!r} (saved under {A!r}, loaded under {B!r})"
-    return None
+    return _judge_relocated(dict(_all_recordings(inp["collection"])), inp.get("save_dir"), inp.get("load_dir"), out)
 
 
+# ------------------------------------------------------------------ several saves / loads in one process
 def _impl_stored_history(inp):
-    return [_impl_stored(st) for st in inp["steps"]]
+    """consecutive saves in one process; with `reuse` the *same* objects are saved again (a save must not have
+    changed them)"""
+    if not inp.get("reuse"):
+        return [_impl_stored(st) for st in inp["steps"]]
+    try:
+        obj = aoef.build(inp["steps"][0]["collection"])
+    except leanio.InfraError:
+        raise
+    except Exception as e:  # noqa: BLE001
+        return [canon_exc(e) for _ in inp["steps"]]
+    return [_stored_of(obj, st) for st in inp["steps"]]
 
 
 def _holds_stored_history(ctx, inp, out):
-    for i, o in enumerate(out):
-        if o.get("file_written"):
-            return f"step {i + 1}: saving failed but a file was written at the target path"
+    for i, (st, o) in enumerate(zip(inp["steps"], out)):
+        msg = _judge_stored(st, o, where=f"save {i + 1} of {len(out)} in one process: ")
+        if msg:
+            return msg
     return None
 
 
@@ -181,54 +375,698 @@ def _cmp_stored_history(inp, io, mo):
     return None
 
 
+def _impl_relocate_many(inp):
+    """one save under `save_dir`, then the same file is loaded under each of `load_dirs`, in one process"""
+    loads = inp["load_dirs"]
+    hows = inp.get("load_as") or ["str"] * len(loads)
+    d = _fresh_dir()
+    target = os.path.join(d, "doc.json")
+    try:
+        try:
+            obj = aoef.build(inp["collection"])
+            _do_save(obj, target, inp.get("save_dir"), inp.get("dir_as", "str"))
+        except leanio.InfraError:
+            raise
+        except Exception as e:  # noqa: BLE001
+            return [canon_exc(e) for _ in loads]
+        outs = []
+        for B, how in zip(loads, hows):
+            try:
+                outs.append({"val": _all_recordings(aoef.dump(_do_load(target, B, how)))})
+            except leanio.InfraError:
+                raise
+            except Exception as e:  # noqa: BLE001
+                outs.append(canon_exc(e))
+        return outs
+    finally:
+        shutil.rmtree(d, ignore_errors=True)
+
+
+def _holds_relocate_many(ctx, inp, out):
+    paths = dict(_all_recordings(inp["collection"]))
+    for i, (B, o) in enumerate(zip(inp["load_dirs"], out)):
+        msg = _judge_relocated(paths, inp.get("save_dir"), B, o, where=f"load {i + 1} of {len(out)} of one file in one process: ")
+        if msg:
+            return msg
+    return None
+
+
+def _cmp_list(inp, io, mo):
+    if len(io) != len(mo):
+        return "implementation and model disagree (number of steps)"
+    for i, (a, b) in enumerate(zip(io, mo)):
+        msg = _cmp_sorted_val(inp, a, b)
+        if msg:
+            return f"step {i + 1} of {len(io)}: {msg}"
+    return None
+
+
+def _impl_relocate_chain(inp):
+    """save under s1, load under l1, save *the loaded object* under s2, load under l2, ...; the first failure ends
+    the chain (every later step reports it too)"""
+    outs = []
+    try:
+        obj = aoef.build(inp["collection"])
+    except leanio.InfraError:
+        raise
+    except Exception as e:  # noqa: BLE001
+        return [canon_exc(e) for _ in inp["steps"]]
+    err = None
+    for st in inp["steps"]:
+        if err is not None:
+            outs.append(err)
+            continue
+        d = _fresh_dir()
+        target = os.path.join(d, "doc.json")
+        try:
+            _do_save(obj, target, st.get("save_dir"), st.get("dir_as", "str"))
+            obj = _do_load(target, st.get("load_dir"), st.get("load_as", "str"))
+            outs.append({"val": _all_recordings(aoef.dump(obj))})
+        except leanio.InfraError:
+            raise
+        except Exception as e:  # noqa: BLE001
+            err = canon_exc(e)
+            outs.append(err)
+        finally:
+            shutil.rmtree(d, ignore_errors=True)
+    return outs
+
+
+def _holds_relocate_chain(ctx, inp, out):
+    paths = dict(_all_recordings(inp["collection"]))
+    for i, (st, o) in enumerate(zip(inp["steps"], out)):
+        where = f"cycle {i + 1} of {len(out)} (each cycle saves what the previous one loaded): "
+        msg = _judge_relocated(paths, st.get("save_dir"), st.get("load_dir"), o, where=where)
+        if msg:
+            return msg
+        nxt = _want_relocated(paths, st.get("save_dir"), st.get("load_dir"))
+        if nxt is None or "val" not in o:
+            return None
+        paths = nxt
+    return None
+
+
+# ------------------------------------------------------------------ paths that exist on disk
+DISK_ROOT = os.path.join(leanio.RUN_DIR, "c18-disk")     # fixed (no pid): a replay finds the same tree again
+DISK_TREE = {"files": ["A/x.wav", "A/sub dir/y.wav", "A/sub dir/deeper/z.wav", "B/x.wav", "B/sub dir/y.wav", "x.wav",
+                       "sub dir/y.wav"],
+             "dirs": ["C", "A/empty"], "links": {"L": "A", "A/sub link": "sub dir"}}
+
+
+def _ensure_disk(spec):
+    """real files / directories / symbolic links under DISK_ROOT (idempotent; nothing is ever removed)"""
+    for f in spec.get("files", []):
+        q = os.path.join(DISK_ROOT, f)
+        os.makedirs(os.path.dirname(q), exist_ok=True)
+        if not os.path.exists(q):
+            open(q, "a").close()
+    for d in spec.get("dirs", []):
+        os.makedirs(os.path.join(DISK_ROOT, d), exist_ok=True)
+    for name, to in spec.get("links", {}).items():
+        q = os.path.join(DISK_ROOT, name)
+        os.makedirs(os.path.dirname(q), exist_ok=True)
+        if not os.path.lexists(q):
+            try:
+                os.symlink(to, q)
+            except FileExistsError:
+                pass
+
+
+def _with_disk(f):
+    def g(inp):
+        if inp.get("disk"):
+            _ensure_disk(inp["disk"])
+        return f(inp)
+    g.__doc__ = f.__doc__
+    return g
+
+
+# ------------------------------------------------------------------ Tie 1: the adapter table, by introspection
+def _reachable_instances(root, cls, depth=6):
+    """every instance of `cls` reachable from `root` through instance attributes, whatever their names"""
+    seen, found, todo = set(), {}, [(root, 0)]
+    while todo:
+        x, d = todo.pop()
+        if id(x) in seen:
+            continue
+        seen.add(id(x))
+        if isinstance(x, cls):
+            found[id(x)] = x
+        if d >= depth:
+            continue
+        if isinstance(x, dict):
+            kids = list(x.values())
+        elif isinstance(x, (list, tuple, set)):
+            kids = list(x)
+        elif hasattr(x, "__dict__") and not isinstance(x, type):
+            kids = list(vars(x).values())
+        else:
+            kids = []
+        for k in kids:
+            if k is None or isinstance(k, (str, bytes, int, float, bool, Path)):
+                continue
+            todo.append((k, d + 1))
+    return list(found.values())
+
+
+def _adapter_rows():
+    """(collection type, number of distinct recording adapters of the collection adapter built with a directory,
+    each stores relative / fails outside / joins on load, the ones built without a directory pass paths through) for
+    every row of soundevent.io.aoef.ADAPTERS -- observed by calling the recording adapters' two conversion methods"""
+    import importlib
+    import uuid as _uuid
+    from soundevent import data
+    real = importlib.import_module("soundevent.io.aoef")
+    recmod = importlib.import_module("soundevent.io.aoef.recording")
+    table = getattr(real, "ADAPTERS", None)
+    # the two classes by what they are (a renamed class is found all the same): the adapter is the class of the module
+    # with the two conversion methods, the object class the pydantic model with a `path` field
+    own = [c for c in vars(recmod).values() if isinstance(c, type) and c.__module__ == recmod.__name__]
+    RA = getattr(recmod, "RecordingAdapter", None) or next(
+        (c for c in own if hasattr(c, "assemble_aoef") and hasattr(c, "assemble_soundevent")), None)
+    RO = getattr(recmod, "RecordingObject", None) or next(
+        (c for c in own if "path" in getattr(c, "model_fields", {})), None)
+    if table is None or RA is None or RO is None:
+        raise LookupError("soundevent.io.aoef.ADAPTERS / the recording adapter class / the recording object class not found")
+    sent = Path("/c18 probe/audio dir")
+
+    def rec(p):
+        return data.Recording(path=p, duration=1.0, channels=1, samplerate=8000)
+
+    def obj(p):
+        return RO(uuid=_uuid.uuid4(), path=p, duration=1.0, channels=1, samplerate=8000)
+
+    def ok(f):
+        def g(a):
+            try:
+                return bool(f(a))
+            except Exception:  # noqa: BLE001
+                return False
+        return g
+
+    def stores(a):
+        r = rec(sent / "sub dir" / "x.wav")
+        return str(a.assemble_aoef(r, r.uuid).path) == "sub dir/x.wav"
+
+    def fails(a):
+        r = rec(Path("/c18 probe/audio dir2/x.wav"))
+        try:
+            a.assemble_aoef(r, r.uuid)
+        except Exception:  # noqa: BLE001  (the property pins that it fails, not the class of the error)
+            return True
+        return False
+
+    def joins(a):
+        return Path(a.assemble_soundevent(obj("sub dir/x.wav")).path) == sent / "sub dir" / "x.wav"
+
+    def passes(a):
+        r = rec(sent / "y.wav")
+        return (Path(a.assemble_aoef(r, r.uuid).path) == sent / "y.wav"
+                and Path(a.assemble_soundevent(obj("rel/y.wav")).path) == Path("rel/y.wav"))
+
+    rows = []
+    for name, _cls, adapter_cls in table:
+        with_dir = _reachable_instances(adapter_cls(audio_dir=sent), RA)
+        without = _reachable_instances(adapter_cls(), RA)
+        rows.append((str(name), len(with_dir), all(map(ok(stores), with_dir)), all(map(ok(fails), with_dir)),
+                     all(map(ok(joins), with_dir)), len(without) == len(with_dir) and all(map(ok(passes), without))))
+    return rows
+
+
+def _tables(ctx):
+    rows = _adapter_rows()
+    b = lambda x: "true" if x else "false"
+    lean_rows = ", ".join(f'⟨{json.dumps(n, ensure_ascii=False)}, {k}, {b(s)}, {b(f)}, {b(j)}, {b(p)}⟩' for n, k, s, f, j, p in rows)
+    src = (f"def extractedAdapters : List SE.Proofs.C18.AdapterRow := [{lean_rows}]\n"
+           "example : SE.Proofs.C18.ThreadsDir extractedAdapters := by decide\n"
+           "example (c : SE.Aoef.Collection) : ∃ r ∈ extractedAdapters, r.type = c.typeName ∧ r.recAdapters = 1 ∧\n"
+           "    r.storesRelative = true ∧ r.failsOutside = true ∧ r.joinsOnLoad = true ∧ r.passThrough = true :=\n"
+           "  SE.Proofs.C18.C18_adapter_table extractedAdapters (by decide) c\n")
+    ctx.obligation("adapter_table_threads_audio_dir", src, {"rows": rows})
+    ctx.discharge(["Proofs.C18"])
+
+
+def _model_args(*keys):
+    return lambda i: {k: i.get(k) for k in keys}
+
+
 OPS = {
     "stored_history": Op("stored_history", _impl_stored_history, holds=_holds_stored_history, compare=_cmp_stored_history,
-                         nontrivial=lambda i, o: any("val" in x for x in o)),
+                         nontrivial=lambda i, o: any("val" in x for x in o),
+                         to_model=lambda i: {"steps": [{"collection": s["collection"], "audio_dir": s.get("audio_dir")}
+                                                       for s in i["steps"]]}),
     "path_parse": Op("path_parse", _impl_parse, model_op="parse"),
     "path_relative_to": Op("path_relative_to", _impl_rel, model_op="relative_to"),
     "path_join": Op("path_join", _impl_join, model_op="join"),
-    "stored": Op("stored", _impl_stored, holds=_holds_stored, compare=_cmp_sorted_val, model_op="stored",
-                 to_model=lambda i: {"collection": i["collection"], "audio_dir": i.get("audio_dir")}),
-    "relocate": Op("relocate", _impl_relocate, holds=_holds_relocate, compare=_cmp_sorted_val, model_op="relocate",
-                   to_model=lambda i: {"collection": i["collection"], "save_dir": i.get("save_dir"),
-                                       "load_dir": i.get("load_dir")}),
+    "stored": Op("stored", _with_disk(_impl_stored), holds=_holds_stored, compare=_cmp_sorted_val, model_op="stored",
+                 to_model=_model_args("collection", "audio_dir")),
+    "relocate": Op("relocate", _with_disk(_impl_relocate), holds=_holds_relocate, compare=_cmp_sorted_val, model_op="relocate",
+                   to_model=_model_args("collection", "save_dir", "load_dir")),
+    "relocate_many": Op("relocate_many", _impl_relocate_many, holds=_holds_relocate_many, compare=_cmp_list,
+                        nontrivial=lambda i, o: any("val" in x for x in o),
+                        to_model=_model_args("collection", "save_dir", "load_dirs")),
+    "relocate_chain": Op("relocate_chain", _impl_relocate_chain, holds=_holds_relocate_chain, compare=_cmp_list,
+                         nontrivial=lambda i, o: any("val" in x for x in o),
+                         to_model=lambda i: {"collection": i["collection"],
+                                             "steps": [{"save_dir": s.get("save_dir"), "load_dir": s.get("load_dir")}
+                                                       for s in i["steps"]]}),
 }
 
 
 # ------------------------------------------------------------------ generators
-DIRS = ["/data/audio", "/", "/a b/ünï/x.y", "/data", "rel/dir", "/data/audio/sub"]
+# directories under which the recordings of a collection lie (absolute and relative; blanks, tabs, decomposed
+# unicode, a repeated name, the two-slash root, `..` inside the directory's own spelling)
+ABS_DIRS = ["/data/audio", "/", "/a b/ünï/x.y", "/data", "/data/audio/sub", "/audio/x/audio", "/data/ audio ",
+            "/estacio\u0301n/grabaciones", "/tab\tdir", "//net/share", "/data/audio/..", "/data/../data/audio", "/..."]
+REL_DIRS = ["rel/dir", "rel", "audio", ".", "", "../up", " rel "]
+DIRS = ABS_DIRS + REL_DIRS
+LOAD_DIRS = DIRS + ["/mnt/other disk", "elsewhere", "/mnt/b", "//net/x", "..", "/mnt/ b ", "/mnt/estaci\u00f3n"]
+
+DIR_PARTS = ["sub", "a b", "ünï", "2024", "x.y", ".hidden", "...", "estacio\u0301n", "estaci\u00f3n", " lead", "trail ",
+             "tab\tdir", "audio", "data", "..x", "~"]
+FILE_NAMES = ["rec.wav", "ñandú 1.WAV", "a.b.c.flac", "rec", " ", "grabacio\u0301n n\u0303u.wav", "grabaci\u00f3n \u00f1u.wav",
+              "\u1112\u1161\u11ab.wav", " lead.wav", "trail.wav ", "tab\t.wav", "\ttab.wav", "end.wav\t", "..wav", "...",
+              "..hidden", "audio", "audio.wav", "data", "~", "-", "#1.wav", "%2e%2e", "a\\b.wav", "new\nline.wav",
+              " nbsp.wav ", "A\u030a.wav", "　"]
+
+
+def _last_name(base):
+    p = PurePosixPath(base or ".")
+    return p.name or "audio"
+
+
+class PGen(aoefgen.Gen):
+    """the shared collection generator with C18's spellings of the recording paths: names with leading / trailing
+    blanks and tabs, composed and decomposed unicode, names equal to the directory's own name, `..` components,
+    and (rarely) the audio directory itself as the recording's path"""
+
+    def __init__(self, rng, rich=False, base="/data/audio", size=1.0, dots=0.1, messy=0.15, itself=0.03):
+        self.dots, self.messy, self.itself = dots, messy, itself
+        super().__init__(rng, rich=rich, base=base, size=size)
+
+    def path(self, i):
+        r = self.rng
+        base = self.base
+        if base not in (None, "", ".") and r.random() < self.itself:
+            return base
+        own = _last_name(base)
+        parts = []
+        for _ in range(r.randint(0, 3)):
+            z = r.random()
+            parts.append(".." if z < self.dots else own if z < self.dots + 0.08 else r.choice(DIR_PARTS))
+        z = r.random()
+        parts.append(own if z < 0.06 else own + ".wav" if z < 0.1 else f"r{i}.wav" if z < 0.25 else r.choice(FILE_NAMES))
+        sep = (lambda: r.choice(["/", "//", "/./"])) if r.random() < self.messy else (lambda: "/")
+        rel = parts[0]
+        for p in parts[1:]:
+            rel += sep() + p
+        if base in (None, "", "."):
+            return rel
+        return (base.rstrip("/") + sep() + rel) if base.strip("/") else base + rel
 
 
 def _dir_variant(rng, d):
-    """the same directory as a caller may write it"""
-    if d == "/":
+    """the same directory as a caller may write it (pathlib parses all of these to the same path)"""
+    if d is None:
+        return None
+    if d in ("", "."):
+        return rng.choice(["", ".", "./", "./."])
+    if d.strip("/") == "":
+        return d if len(d) == 2 else rng.choice(["/", "/", "///", "/.", "/./"])
+    z = rng.random()
+    if z < 0.45:
         return d
-    return d + rng.choice(["", "", "/", "/."])
+    if z < 0.6:
+        return d + "/"
+    if z < 0.7:
+        return d + "/."
+    if z < 0.78:
+        return d + "//"
+    if z < 0.86 and "/" in d[2:]:
+        i = d.index("/", 2)
+        return d[:i] + rng.choice(["//", "/./"]) + d[i + 1:]
+    if z < 0.93 and not d.startswith("/"):
+        return "./" + d
+    if z < 0.97 and d.startswith("/") and not d.startswith("//"):
+        return "//" + d            # three slashes: still the root "/"
+    return d
+
+
+def _ancestors(base):
+    p = PurePosixPath(base)
+    out, cur = [], p
+    while True:
+        out.append(str(cur))
+        if cur.parent == cur:
+            break
+        cur = cur.parent
+    return out
+
+
+def _flip_unicode(s):
+    for form in ("NFC", "NFD"):
+        t = unicodedata.normalize(form, s)
+        if t != s:
+            return t
+    return None
+
+
+def _outside_dirs(base):
+    """directories that do *not* contain `base` lexically but look as if they might: siblings sharing a string
+    prefix, children, another case, the other unicode normal form, the other anchor, `..` spellings"""
+    b = base if base != "" else "."
+    out = []
+    if b.strip("/") and b != ".":
+        out += [b + "2", b + " ", b + "_backup", b + "/deeper/still", b.upper(), b + "/..", b + "/sub/.."]
+        out.append(b.rstrip("/")[:-1] or "x")                   # a proper string prefix of the name
+        out.append(b.lstrip("/") if b.startswith("/") else "/" + b)       # relative <-> absolute
+        if b.startswith("/") and not b.startswith("//"):
+            out.append("/" + b)                                  # two slashes: another root
+        f = _flip_unicode(b)
+        if f:
+            out.append(f)
+        out.append(str(PurePosixPath(b).parent / "other"))
+    else:
+        out += ["/x/y", "x", "//"] if b != "." else ["/", "x", ".."]
+    out.append("/unrelated")
+    return [o for o in out if o != base]
+
+
+def _pick_how(ctx, rng, who):
+    how = rng.choice(["str", "path"])
+    ctx.tally(f"{who} audio_dir as " + how)
+    return how
+
+
+def _routes_opts(rng):
+    """the public route and options of a save / load: mostly soundevent.io with format='aoef'"""
+    z = rng.random()
+    if z < 0.6:
+        return {}
+    if z < 0.7:
+        return {"format": None}
+    if z < 0.8:
+        return {"api": "aoef"}
+    if z < 0.88:
+        return {"api": "convert"}
+    if z < 0.94:
+        return {"api": "positional"}
+    return {"type": True}
 
 
 def _collection_cases(ctx, rng, n_per_type):
+    stored, reloc, many, chain = [], [], [], []
+    for ty in aoefgen.TYPES:
+        for k in range(n_per_type):
+            base = rng.choice(DIRS)
+            cj = PGen(rng, rich=rng.random() < 0.3, base=base, size=0.8).collection(ty)
+            hs, hl = _pick_how(ctx, rng, "save:"), _pick_how(ctx, rng, "load:")
+            ctx.tally("type:" + ty)
+            ctx.tally("recordings under an absolute directory" if base.startswith("/") else "recordings under a relative directory")
+            # inside: save under the base or one of its (lexical) ancestors
+            anc = rng.choice(_ancestors(base or ".")) if rng.random() < 0.3 else base
+            A = _dir_variant(rng, anc)
+            opts = _routes_opts(rng)
+            sopts = {k: v for k, v in opts.items() if k != "type"}
+            for o in opts:
+                ctx.tally(f"route/option {o}={opts[o]}")
+            stored.append({"collection": cj, "audio_dir": A, "dir_as": hs, **sopts})
+            stored.append({"collection": cj, "audio_dir": None, "dir_as": hs})
+            B = _dir_variant(rng, rng.choice(LOAD_DIRS))
+            reloc.append({"collection": cj, "save_dir": A, "load_dir": B, "dir_as": hs, "load_as": hl, **opts})
+            reloc.append({"collection": cj, "save_dir": None, "load_dir": None, "dir_as": hs, "load_as": hl})
+            z = rng.random()
+            if z < 0.3:
+                reloc.append({"collection": cj, "save_dir": None, "load_dir": B, "dir_as": hs, "load_as": hl, **opts})
+            elif z < 0.5:
+                reloc.append({"collection": cj, "save_dir": A, "load_dir": None, "dir_as": hs, "load_as": hl, **opts})
+            # outside
+            out = rng.choice(_outside_dirs(base))
+            pre = rng.choice([None, None, "file", "fresh_dir"])
+            stored.append({"collection": cj, "audio_dir": out, "dir_as": hs, **sopts, **({"pre": pre} if pre else {})})
+            ctx.tally("outside-directory candidate" + (f" ({pre})" if pre else ""))
+            if k % 4 == 0:
+                Bs = [_dir_variant(rng, rng.choice(LOAD_DIRS)) for _ in range(3)] + [None, B]
+                many.append({"collection": cj, "save_dir": A, "dir_as": hs, "load_dirs": Bs,
+                             "load_as": [rng.choice(["str", "path"]) for _ in Bs]})
+            if k % 4 == 1:
+                B1, B2 = rng.choice(LOAD_DIRS), rng.choice(LOAD_DIRS)
+                chain.append({"collection": cj, "steps": [
+                    {"save_dir": A, "load_dir": B1, "dir_as": hs, "load_as": hl},
+                    {"save_dir": _dir_variant(rng, B1), "load_dir": B2, "dir_as": hl, "load_as": hs},
+                    {"save_dir": rng.choice([B2, None, "/nowhere"]), "load_dir": None, "dir_as": hs, "load_as": hl}]})
+    return stored, reloc, many, chain
+
+
+# -- recordings reachable by one route only ------------------------------------------------------------------
+ANN_TYPES = ("annotation_set", "annotation_project", "evaluation_set")
+PRED_TYPES = ("prediction_set", "model_run")
+ROUTES = {
+    "recording_set": ["member_first", "member_middle", "member_last"],
+    "dataset": ["member_first", "member_middle", "member_last"],
+    "annotation_set": ["clip", "sound_event", "sequence", "parent_sequence"],
+    "annotation_project": ["clip", "sound_event", "sequence", "parent_sequence", "task"],
+    "evaluation_set": ["clip", "sound_event", "sequence", "parent_sequence"],
+    "prediction_set": ["clip", "sound_event", "sequence", "parent_sequence"],
+    "model_run": ["clip", "sound_event", "sequence", "parent_sequence"],
+    "evaluation": ["clip", "ann_sound_event", "ann_sequence", "pred_sound_event", "pred_sequence", "pred_parent_sequence"],
+}
+
+
+def _route_collection(rng, ty, route, star_path, base):
+    """a collection of type `ty` whose recordings lie under `base`, plus one more recording at `star_path` that is
+    reachable through `route` only"""
+    g = PGen(rng, base=base, size=0.7, itself=0.0)
+    star = dict(g.recording(99), path=star_path)
+
+    def with_star(f):
+        old = g.recordings
+        g.recordings = [star]
+        try:
+            return f()
+        finally:
+            g.recordings = old
+
+    def seq_of(ses, parent=None):
+        return {"uuid": g.uid(), "sound_events": ses, "features": g.features(2), "parent": parent}
+
+    def star_seq(deep):
+        s = seq_of([with_star(g.sound_event)])
+        if deep:
+            s = seq_of([copy.deepcopy(rng.choice(g.ses))], parent=seq_of([], parent=s))
+        return s
+
+    cj = g.collection(ty)
+    v = cj["value"]
+    if ty in ("recording_set", "dataset"):
+        recs = [copy.deepcopy(r) for r in g.recordings] + [g.recording(50 + i) for i in range(2)]
+        i = {"member_first": 0, "member_middle": len(recs) // 2, "member_last": len(recs)}[route]
+        v["recordings"] = recs[:i] + [star] + recs[i:]
+        return cj
+    if ty in ANN_TYPES:
+        ca = g.ca()
+        if route == "clip" or route == "task":
+            sc = with_star(g.clip)
+            if route == "clip":
+                ca = g.ca(sc)
+        elif route == "sound_event":
+            ca["sound_events"].append(dict(g.sea(), sound_event=with_star(g.sound_event)))
+        else:
+            ca["sequences"].append(dict(g.sqa(), sequence=star_seq(route == "parent_sequence")))
+        v["clip_annotations"].insert(rng.randint(0, len(v["clip_annotations"])), ca)
+        if ty == "annotation_project":
+            v["tasks"].append(g.task(ca["clip"]))
+            if route == "task":
+                v["tasks"].insert(0, g.task(sc))
+        return cj
+    if ty in PRED_TYPES:
+        cp = g.cp()
+        if route == "clip":
+            cp = g.cp(with_star(g.clip))
+        elif route == "sound_event":
+            cp["sound_events"].append(dict(g.sep(), sound_event=with_star(g.sound_event)))
+        else:
+            cp["sequences"].append(dict(g.sqp(), sequence=star_seq(route == "parent_sequence")))
+        v["clip_predictions"].insert(rng.randint(0, len(v["clip_predictions"])), cp)
+        return cj
+    # evaluation
+    if route == "clip":
+        old = g.clips
+        g.clips = [with_star(g.clip)]
+        try:
+            ce = g.ce()
+        finally:
+            g.clips = old
+    else:
+        ce = g.ce()
+        if route == "ann_sound_event":
+            a = dict(g.sea(), sound_event=with_star(g.sound_event))
+            ce["annotations"]["sound_events"].append(a)
+            ce["matches"].append(g.match(None, a))
+        elif route == "pred_sound_event":
+            p = dict(g.sep(), sound_event=with_star(g.sound_event))
+            ce["predictions"]["sound_events"].append(p)
+            ce["matches"].insert(0, g.match(p, None))
+        elif route == "ann_sequence":
+            ce["annotations"]["sequences"].append(dict(g.sqa(), sequence=star_seq(False)))
+        else:
+            ce["predictions"]["sequences"].append(dict(g.sqp(), sequence=star_seq(route == "pred_parent_sequence")))
+    v["clip_evaluations"].insert(rng.randint(0, len(v["clip_evaluations"])), ce)
+    return cj
+
+
+def _route_cases(ctx, rng, reps=1):
+    """every route by which a recording can be reached, per collection type: the recording inside the directory
+    (stored relative, relocated) and outside it (the whole save fails, nothing is left behind)"""
+    stored, reloc = [], []
+    for ty, routes in ROUTES.items():
+        for route in routes:
+            for _ in range(reps):
+                base = rng.choice(["/data/audio", "/a b/ünï/x.y", "rel/dir", "/data/ audio ", "/"])
+                inside = PGen(rng, base=base, itself=0.0, size=0.0).path(7)
+                outside = rng.choice(["/data/audio2/stray.wav", "/elsewhere/x.wav", "stray.wav", "/data/stray.wav",
+                                      "rel/dir2/x.wav", "/a b/ünï/x.y2/z.wav", "//data/audio/x.wav"])
+                if base == "/":
+                    outside = rng.choice(["stray.wav", "//x/stray.wav", "rel/x.wav"])
+                hs, hl = rng.choice(["str", "path"]), rng.choice(["str", "path"])
+                cin = _route_collection(rng, ty, route, inside, base)
+                cout = _route_collection(rng, ty, route, outside, base)
+                A = _dir_variant(rng, base)
+                stored.append({"collection": cin, "audio_dir": A, "dir_as": hs})
+                reloc.append({"collection": cin, "save_dir": A, "load_dir": rng.choice(LOAD_DIRS), "dir_as": hs, "load_as": hl})
+                pre = rng.choice([None, "file", "fresh_dir"])
+                stored.append({"collection": cout, "audio_dir": A, "dir_as": hs, **({"pre": pre} if pre else {})})
+                ctx.tally(f"route {ty}:{route}")
+    return stored, reloc
+
+
+# -- small-scope exhaustive grid -------------------------------------------------------------------------------
+GRID_REC = ["/data/audio/x.wav", "/data/audio/sub/x.wav", "/data/audio", "/data/audio/../audio/x.wav", "/data/audio/audio",
+            "/data/audio2/x.wav", "/data/x.wav", "data/audio/x.wav", "x.wav", "//data/audio/x.wav", "/data/audio/ x.wav ",
+            "/data/audio/e\u0301.wav", "/data/audio/.../x.wav", "/x.wav"]
+GRID_SAVE = [None, "/data/audio", "/data/audio/", "/data", "/", "data/audio", "", "/data/audio/sub/..", "/data/audio2",
+             "//data/audio", "/data/aud", "/DATA/audio"]
+GRID_LOAD = [None, "/mnt/b", "/", "", "b c/", "//net/x", ".."]
+
+
+def _minimal(rng, ty, path):
+    """the smallest collection of type `ty` with one recording at `path`"""
+    g = PGen(rng, base="/data/audio", size=0.0, itself=0.0)
+    rec = dict(g.recording(0), path=path)
+    g.recordings = [rec]
+    g.clips = [g.clip()]
+    g.ses = [g.sound_event(0)]
+    g.seqs = [{"uuid": g.uid(), "sound_events": [copy.deepcopy(g.ses[0])], "features": [], "parent": None}]
+    g.seas, g.sqas, g.seps, g.sqps = [g.sea()], [g.sqa()], [g.sep()], [g.sqp()]
+    cj = g.collection(ty)
+    v = cj["value"]
+    if ty in ("recording_set", "dataset"):
+        v["recordings"] = [rec]
+    elif ty in ANN_TYPES and not v["clip_annotations"]:
+        v["clip_annotations"] = [g.ca()]
+        if ty == "annotation_project":
+            v["tasks"] = [g.task(v["clip_annotations"][0]["clip"])]
+    elif ty in PRED_TYPES and not v["clip_predictions"]:
+        v["clip_predictions"] = [g.cp()]
+    elif ty == "evaluation" and not v["clip_evaluations"]:
+        v["clip_evaluations"] = [g.ce()]
+    return cj
+
+
+def _grid_cases(ctx):
+    rng = random.Random("C18-grid")
+    stored, reloc = [], []
+    n = 0
+    for ty in aoefgen.TYPES:
+        minimal = {p: _minimal(rng, ty, p) for p in GRID_REC}
+        for p, A in itertools.product(GRID_REC, GRID_SAVE):
+            n += 1
+            how = "path" if n % 2 else "str"
+            stored.append({"collection": minimal[p], "audio_dir": A, "dir_as": how})
+            fails = _want_relocated({"r": p}, A, None) is None
+            for B in GRID_LOAD:
+                n += 1
+                if B is None or (not fails and (n + len(p)) % 3 == 0):
+                    reloc.append({"collection": minimal[p], "save_dir": A, "load_dir": B, "dir_as": how,
+                                  "load_as": "str" if n % 4 < 2 else "path"})
+    ctx.exhaustive["stored: 8 types x recording path x save directory"] = {
+        "types": len(aoefgen.TYPES), "recording_paths": GRID_REC, "save_dirs": GRID_SAVE, "cases": len(stored)}
+    ctx.exhaustive["relocate: 8 types x recording path x save directory x (load directory: None always; the others 1 in 3 when the save succeeds)"] = {
+        "load_dirs": GRID_LOAD, "cases": len(reloc)}
+    return stored, reloc
+
+
+def _disk_cases(ctx):
+    """the same questions about paths that exist: real files under A (and under B, not under C), a symbolic link
+    L -> A and one inside A; pathlib's answers are lexical, so nothing may depend on what is on disk"""
+    rng = random.Random("C18-disk")
+    R = DISK_ROOT
+    stored, reloc = [], []
+    rels = ["x.wav", "sub dir/y.wav", "sub dir/deeper/z.wav", "sub link/y.wav", "missing.wav", "empty"]
+    for ty in aoefgen.TYPES:
+        for base in ("A", "L"):
+            for rel in rels:
+                cj = _minimal(rng, ty, f"{R}/{base}/{rel}")
+                how = rng.choice(["str", "path"])
+                stored.append({"collection": cj, "audio_dir": f"{R}/{base}", "dir_as": how, "disk": DISK_TREE})
+                other = "L" if base == "A" else "A"       # the same directory through / not through the link: outside
+                stored.append({"collection": cj, "audio_dir": f"{R}/{other}", "dir_as": how, "disk": DISK_TREE})
+                for B in (f"{R}/B", f"{R}/C", f"{R}/L", f"{R}/missing", R, None):
+                    if rng.random() < 0.5:
+                        reloc.append({"collection": cj, "save_dir": f"{R}/{base}", "load_dir": B, "dir_as": how,
+                                      "load_as": rng.choice(["str", "path"]), "disk": DISK_TREE})
+                if rng.random() < 0.3:
+                    reloc.append({"collection": cj, "save_dir": None, "load_dir": f"{R}/B", "dir_as": how, "disk": DISK_TREE})
+    ctx.tally("cases with paths that exist on disk (files, directories, symbolic links)", len(stored) + len(reloc))
+    return stored, reloc
+
+
+def _large_cases(ctx):
+    """collections far larger than the generator's usual ones (a batch / fast path for long lists would show here):
+    every recording inside, and the last / a middle one outside"""
+    rng = random.Random("C18-large")
     stored, reloc = [], []
     for ty in aoefgen.TYPES:
-        for _ in range(n_per_type):
-            base = rng.choice(DIRS)
-            cj = aoefgen.gen_collection(rng, ty, rich=rng.random() < 0.3, base=base, size=0.8)
-            how = rng.choice(["str", "path"])
-            ctx.tally("type:" + ty)
-            ctx.tally("audio_dir as " + how)
-            # inside: save under the base or one of its ancestors
-            anc = str(PurePosixPath(base).parent) if rng.random() < 0.3 else base
-            stored.append({"collection": cj, "audio_dir": _dir_variant(rng, anc), "dir_as": how})
-            stored.append({"collection": cj, "audio_dir": None, "dir_as": how})
-            B = rng.choice(DIRS + ["/mnt/other disk", "elsewhere"])
-            reloc.append({"collection": cj, "save_dir": _dir_variant(rng, anc), "load_dir": B, "dir_as": how})
-            reloc.append({"collection": cj, "save_dir": None, "load_dir": None, "dir_as": how})
-            if rng.random() < 0.3:
-                reloc.append({"collection": cj, "save_dir": None, "load_dir": B, "dir_as": how})
-            # outside: a sibling whose name extends the directory's, a child directory, an unrelated one
-            out = rng.choice([base + "2", base + "/deeper/still", "/unrelated", base.upper() if base != "/" else "/x/y"])
-            if out != base and out != "/":
-                stored.append({"collection": cj, "audio_dir": out, "dir_as": how})
-                ctx.tally("outside-directory case")
+        n = 130 if ty in ("recording_set", "dataset") else 36
+        g = PGen(rng, base="/data/audio", size=0.8, itself=0.0)
+        g.recordings = [g.recording(i) for i in range(n)]
+        g.clips = [dict(g.clip(), recording=copy.deepcopy(r)) for r in g.recordings]
+        cj = g.collection(ty)
+        v = cj["value"]
+        if ty in ("recording_set", "dataset"):
+            v["recordings"] = copy.deepcopy(g.recordings)
+        elif ty in ANN_TYPES:
+            v["clip_annotations"] = [g.ca(copy.deepcopy(c)) for c in g.clips]
+            if ty == "annotation_project":
+                v["tasks"] = [g.task(c) for c in g.clips]
+        elif ty in PRED_TYPES:
+            v["clip_predictions"] = [g.cp(copy.deepcopy(c)) for c in g.clips]
+        else:
+            old = g.clips
+            ces = []
+            for c in old:
+                g.clips = [c]
+                ces.append(g.ce())
+            g.clips = old
+            v["clip_evaluations"] = ces
+        stored.append({"collection": cj, "audio_dir": "/data/audio", "dir_as": "path"})
+        reloc.append({"collection": cj, "save_dir": "/data/audio/", "load_dir": "/mnt/other disk", "dir_as": "str", "load_as": "path"})
+        for where in (n - 1, n // 2):
+            bad = copy.deepcopy(cj)
+            u = g.recordings[where]["uuid"]
+
+            def move(x):
+                if isinstance(x, dict):
+                    if x.get("uuid") == u and "samplerate" in x:
+                        x["path"] = "/data/audio2/stray.wav"
+                    for y in x.values():
+                        move(y)
+                elif isinstance(x, list):
+                    for y in x:
+                        move(y)
+            move(bad)
+            stored.append({"collection": bad, "audio_dir": "/data/audio", "dir_as": "str", "pre": "file"})
+    ctx.tally("large collections (130 recordings / 36 clips)", len(stored) + len(reloc))
     return stored, reloc
 
 
@@ -263,40 +1101,103 @@ def _path_cases(rng, n):
 
 
 def _wf(ctx, cases):
-    oks = ctx.driver.call_many("C01", "wf", [{"collection": c["collection"]} for c in cases])
+    """the theorems' hypothesis (`WF`: one uuid, one object) is checked by the model on every collection"""
+    def cjs(c):
+        if "steps" in c and "collection" not in c:
+            return c["steps"][0]["collection"]
+        return c["collection"]
+    oks = ctx.driver.call_many("C01", "wf", [{"collection": cjs(c)} for c in cases])
+    dropped = sum(1 for ok in oks if not ok)
+    if dropped:
+        ctx.tally("generated collections outside the quantifier (not well formed), dropped", dropped)
     return [c for c, ok in zip(cases, oks) if ok]
 
 
-def _correspondence(ctx):
-    ctx.run_corpus(OPS)
+def _spellings(ctx):
+    """every spelling that occurs in the pools, against pathlib: parse, and relative_to / join with each directory"""
+    names = sorted(set(PARTS + DIR_PARTS + FILE_NAMES))
+    dirs = sorted(set(DIRS + LOAD_DIRS + GRID_SAVE[1:] + [d for b in DIRS for d in _outside_dirs(b)]))
+    ps = [{"p": s} for s in names + dirs + GRID_REC]
+    ps += [{"p": d + sep + n} for d in dirs[::3] for n in names[::4] for sep in ("/", "//", "/./")]
+    rels = [{"p": p, "d": d} for p in GRID_REC + [d + "/" + n for d in DIRS for n in FILE_NAMES[::5]] for d in dirs[::2]]
+    joins = [{"d": d, "p": p} for d in dirs[::2] for p in names[::3] + GRID_REC[::3] + ["", ".", "..", "../x"]]
+    ctx.run_cases(OPS["path_parse"], ps)
+    ctx.run_cases(OPS["path_relative_to"], rels)
+    ctx.run_cases(OPS["path_join"], joins)
+    ctx.exhaustive["every name / directory of the generator pools against pathlib"] = {
+        "parse": len(ps), "relative_to": len(rels), "join": len(joins)}
+
+
+def _paths(ctx):
     ps, rels, joins = _path_cases(ctx.rng, ctx.budget(6000, 60000))
     ps += [{"p": s} for s in ["", ".", "/", "//", "///", "a", "./a", "a/.", "a//b", "//a", "///a", "a/..", "../a", "/.", "/..", " "]]
     ctx.run_cases(OPS["path_parse"], ps)
     ctx.run_cases(OPS["path_relative_to"], rels)
     ctx.run_cases(OPS["path_join"], joins)
-    stored, reloc = _collection_cases(ctx, ctx.rng, ctx.budget(40, 800))
-    ctx.run_cases(OPS["stored"], _wf(ctx, stored))
-    ctx.run_cases(OPS["relocate"], _wf(ctx, reloc))
-    ctx.run_cases(OPS["stored"], _wf(ctx, _mixed_outside(random.Random("C18-mixed"))))
-    # histories: the same recordings saved again under other audio directories (ancestor, the base, none, outside)
+    _spellings(ctx)
+
+
+def _histories(ctx, stored):
+    # the same recordings saved again under other audio directories (ancestor, the base, none, outside, root);
+    # every other history saves the *same objects* each time
     hist = []
-    for c in _wf(ctx, stored[::6]):
+    for n, c in enumerate(_wf(ctx, stored[::5])):
         base = c["audio_dir"]
         if base is None:
             continue
+        c = {k: v for k, v in c.items() if k != "pre"}
         anc = str(PurePosixPath(base).parent)
-        hist.append({"steps": [c, dict(c, audio_dir=anc), dict(c, audio_dir=None), dict(c, audio_dir=base + "/nowhere"),
-                               dict(c, audio_dir="/"), c]})
+        hist.append({"reuse": n % 2 == 0,
+                     "steps": [c, dict(c, audio_dir=anc), dict(c, audio_dir=None), dict(c, audio_dir=base + "/nowhere"),
+                               dict(c, audio_dir="/", dir_as="path"), c]})
     ctx.run_cases(OPS["stored_history"], hist)
     ctx.tally("stored-history cases (6 saves each)", len(hist))
+    ctx.tally("stored-history cases saving the same objects again", sum(1 for h in hist if h["reuse"]))
+
+
+def _collections(ctx):
+    stored, reloc, many, chain = _collection_cases(ctx, ctx.rng, ctx.budget(32, 600))
+    ctx.run_cases(OPS["stored"], _wf(ctx, stored))
+    ctx.run_cases(OPS["relocate"], _wf(ctx, reloc))
+    ctx.run_cases(OPS["relocate_many"], _wf(ctx, many))
+    ctx.run_cases(OPS["relocate_chain"], _wf(ctx, chain))
+    ctx.run_cases(OPS["stored"], _wf(ctx, _mixed_outside(random.Random("C18-mixed"))))
+    _histories(ctx, stored)
+
+
+def _routes(ctx):
+    stored, reloc = _route_cases(ctx, ctx.rng, ctx.budget(2, 12))
+    ctx.run_cases(OPS["stored"], _wf(ctx, stored))
+    ctx.run_cases(OPS["relocate"], _wf(ctx, reloc))
+
+
+def _grid(ctx):
+    stored, reloc = _grid_cases(ctx)
+    ctx.run_cases(OPS["stored"], _wf(ctx, stored))
+    ctx.run_cases(OPS["relocate"], _wf(ctx, reloc))
+
+
+def _special(ctx):
+    for gen in (_disk_cases, _large_cases):
+        stored, reloc = gen(ctx)
+        ctx.run_cases(OPS["stored"], _wf(ctx, stored))
+        ctx.run_cases(OPS["relocate"], _wf(ctx, reloc))
 
 
 def run(ctx):
-    ctx.stage("correspondence", _correspondence, ctx)
+    ctx.stage("tables", _tables, ctx)
+    ctx.stage("corpus", ctx.run_corpus, OPS)
+    ctx.stage("paths", _paths, ctx)
+    ctx.stage("grid", _grid, ctx)
+    ctx.stage("routes", _routes, ctx)
+    ctx.stage("on disk / large", _special, ctx)
+    ctx.stage("collections", _collections, ctx)
 
 
 def search(ctx, failures):
     rng = random.Random("C18-search")
-    stored, reloc = _collection_cases(ctx, rng, 20)
+    stored, reloc, many, chain = _collection_cases(ctx, rng, 20)
     ctx.run_cases(OPS["stored"], _wf(ctx, stored))
     ctx.run_cases(OPS["relocate"], _wf(ctx, reloc))
+    ctx.run_cases(OPS["relocate_many"], _wf(ctx, many))
+    ctx.run_cases(OPS["relocate_chain"], _wf(ctx, chain))
